@@ -4,7 +4,9 @@ cd /verif || exit 2
 out=${1:-/verif/seeded/RESULTS.txt}
 pat=${2:-C}
 [ -n "${APPEND:-}" ] || : > "$out"
-for d in seeded/${pat}*-m*; do
+for d in seeded/${pat}*/; do
+  d=${d%/}; [ -f "$d/meta.json" ] || continue
+  case "$d" in *${ONLY:-}*) ;; *) continue ;; esac
   id=$(basename $d); prop=${id%%-*}
   title=$(python3 -c "import json;print(json.load(open('$d/meta.json'))['title'])")
   res=$(tools/mutant.sh $d/patch.diff quick $prop 2>&1)
